@@ -1,5 +1,5 @@
 """Contracts for Matryoshka (C03, C04, C11)."""
-from pyvc.spec import (contract, Rec, Opt, PowerT, Int, Real, Bool, StrId, OpaqueT, KeySet, Obj,
+from pyvc.spec import (contract, Rec, Opt, PowerT, Int, Real, Bool, StrId, OpaqueT, KeySet, Obj, Seq as SeqT,
                        implies, forall)
 from contracts.common import (BoundsT, OptBoundsT, ProposalBoundsT, SystemBoundsT, zero, in_zone, usable)
 
@@ -414,14 +414,66 @@ def expired(p, loop_time, max_age):
     return (loop_time - p.creation_time) > max_age
 
 
+def key_is(p, gp, gs):
+    return p.priority == gp and p.source_id == gs
+
+
 @contract(f"{M}:Matryoshka.drop_old_proposals")
 class DropOldProposals:
-    """C03: proposals older than the maximum age stop counting; everything else stays.
-    (Bounded stand-in only: the two list-building loops are outside the verifier's subset.)"""
+    """C03: proposals older than the maximum age stop counting; everything else stays (for an arbitrary proposal key
+    (gp, gs): it is in the bucket afterwards iff it was there and is not expired; survivors are unchanged); C11: the
+    bucket itself and the stored target are kept.
+
+    Proof: `src` is a ghost list with the enumeration index of every element put on `to_delete` (strictly increasing,
+    so the listed proposals have pairwise different keys); the second loop removes exactly the listed keys."""
     self_shape = MatryoshkaOneBucket
     shapes = dict(loop_time=Real)
     ghost = dict(gp=Int, gs=StrId)
     native_opaque = {"component_ids": CID}
+    modifies = ["self._component_buckets"]
+    loops = {
+        "for proposal in bucket": dict(
+            idx="_i", seq_name="E",
+            ghost_init=["src = []", "g_listed = False"],
+            ghost_stmts=["if len(to_delete) > len(src):\n    src.append(_i)",
+                         "g_listed = g_listed or (key_is(proposal, gp, gs) and expired(proposal, loop_time, self._max_proposal_age_sec))"],
+            havoc={"to_delete": SeqT(ProposalT), "src": SeqT(Int), "g_listed": Bool},
+            invariant=dict(
+                same_length="len(src) == len(to_delete) and len(to_delete) <= _i",
+                listed_are_expired_elements="forall(0, len(to_delete), lambda j: 0 <= src[j] and src[j] < _i"
+                                            " and same_record(to_delete[j], E[src[j]])"
+                                            " and expired(E[src[j]], loop_time, self._max_proposal_age_sec))",
+                listed_in_enumeration_order="forall(0, len(src) - 1, lambda j: src[j] < src[j + 1])",
+                ghost_key_listed_iff_seen_expired="g_listed == exists(0, _i, lambda i: key_is(E[i], gp, gs)"
+                                                  " and expired(E[i], loop_time, self._max_proposal_age_sec))",
+                ghost_key_listed_iff_on_list="g_listed == exists(0, len(to_delete), lambda j: key_is(to_delete[j], gp, gs))",
+                bucket_untouched="keyset_has(bucket, KEY, (gp, gs)) == old(keyset_has(bucket(self, CID), KEY, (gp, gs)))",
+                listed_differ_from_unvisited="forall(0, len(to_delete), lambda j: forall(_i, len(E), lambda m:"
+                                             " not (to_delete[j].priority == E[m].priority"
+                                             " and to_delete[j].source_id == E[m].source_id)))",
+                listed_keys_distinct="forall(0, len(to_delete), lambda a: forall(0, len(to_delete), lambda b: implies(a < b,"
+                                     " not (to_delete[a].priority == to_delete[b].priority"
+                                     " and to_delete[a].source_id == to_delete[b].source_id))))",
+            )),
+        "for proposal in to_delete": dict(
+            idx="_k",
+            havoc_objects={"bucket": ProposalSetT},
+            invariant=dict(
+                ghost_key_present_iff_not_removed_yet="keyset_has(bucket, KEY, (gp, gs)) == ("
+                                                      "old(keyset_has(bucket(self, CID), KEY, (gp, gs)))"
+                                                      " and not exists(0, _k, lambda j: key_is(to_delete[j], gp, gs)))",
+                listed_keys_distinct="forall(0, len(to_delete), lambda a: forall(0, len(to_delete), lambda b: implies(a < b,"
+                                     " not (to_delete[a].priority == to_delete[b].priority"
+                                     " and to_delete[a].source_id == to_delete[b].source_id))))",
+                rest_of_list_still_present="forall(_k, len(to_delete), lambda j:"
+                                           " keyset_has(bucket, KEY, (to_delete[j].priority, to_delete[j].source_id)))",
+                survivors_unchanged="implies(keyset_has(bucket, KEY, (gp, gs)),"
+                                    " same_record(keyset_get(bucket, KEY, (gp, gs)),"
+                                    " old(keyset_get(bucket(self, CID), KEY, (gp, gs))"
+                                    " if keyset_has(bucket(self, CID), KEY, (gp, gs)) else None)))",
+            )),
+    }
+    raises = dict(KeyError="False")
     ensures = dict(
         kept_iff_young="keyset_has(bucket(self, CID), KEY, (gp, gs)) == ("
                        "old(keyset_has(bucket(self, CID), KEY, (gp, gs))) and not old("
